@@ -52,7 +52,8 @@ impl Annotations {
             proof_of_work_nonce: Annotation::ProofOfWorkNonce
                 .extract(annotations)?
                 .first()
-                .ok_or(anyhow::anyhow!("No ProofOfWorkNonce in annotations!"))?
+                .filter(|nonce| nonce.bits() <= u64::BITS as u64)
+                .ok_or(anyhow::anyhow!("No 64-bit ProofOfWorkNonce in annotations!"))?
                 .clone(),
             original_witness_leaves: Annotation::OriginalWitnessLeaves.extract(annotations)?,
             original_witness_authentications: Annotation::OriginalWitnessAuthentications
